@@ -171,6 +171,19 @@ def build(sc, sb):
 
 
 def execute(sc, ctx):
+    """The invocations may change the working directory (relative --includes): always put it back."""
+    try:
+        base = os.getcwd()
+    except OSError:
+        base = os.path.dirname(os.path.dirname(os.path.dirname(os.path.abspath(__file__))))
+        os.chdir(base)
+    try:
+        return _execute(sc, ctx)
+    finally:
+        os.chdir(base)
+
+
+def _execute(sc, ctx):
     import kconfcheck.check_deprecated_options as cdo
     import kconfcheck.core as kc
 
